@@ -84,6 +84,12 @@ CHECKS["C15"] = dict(
   text="Every command type (53, found by probing), every byte / nested field reachable by reflection, both codec modes and 3-8 keyspace ids: key-like fields must be prefixed on encode and stripped on decode, ranges clamped to the keyspace, region descriptions clipped; AttachContext / GenRegionErrorResp / batch conversion hold for every command; raw and transactional op sequences (depth 3-4) give identical results under v1, keyspace A and keyspace B and never leak across keyspaces.",
   note="Trusted: key-likeness decided by field name; documented exclusions (deprecated fields, stream responses, Compact) listed in the evidence; differential part uses single-region mocktikv.")
 
+CHECKS["C12"] = dict(
+  engine="seqx", category="model_checking", design="5/C12, appendix B",
+  technique="explicit-state BFS over command sequences on the real MVCCLevelDB (directly and through the RPC handlers) against a reference Percolator MVCC model (dedup by canonical model state)",
+  text="All sequences to the depth bound over an alphabet of 163-360 concrete commands (every command of the property with its option variants, 2-3 keys, 2-3 transactions, pairwise distinct timestamps in every order) from two root states; every answer (error class + payload a client acts on) and a full observation set (gets at every timestamp, scans, reverse scans, lock scans) are compared with the model, and the stated laws are invariants of every reached state. The 'randomly beyond' clause of the property is replaced by deeper exhaustive bounds.",
+  note="Trusted: the reference model rt/models/refmvcc, written from TiKV's documented semantics and the property text; behaviours on which the text is silent are tolerated and listed in the evidence.")
+
 PENDING = {}
 for p in ALL:
     if p not in CHECKS:
@@ -104,7 +110,7 @@ def main():
       {"name": "enum", "path": "harness/c19", "serves_properties": ["C15", "C19"], "kind_free_text": "bounded exhaustive input enumeration against laws/reference decoders"},
       {"name": "envx", "path": "harness/c10", "serves_properties": ["C10"], "kind_free_text": "deviation-bounded enumeration of environment answers (fault scripts) on sequential code"},
       {"name": "parksched", "path": "rt/sched", "serves_properties": ["C01", "C02", "C03", "C04", "C06"], "kind_free_text": "controlled scheduler for real goroutines parked at seam points + deviation-bounded stateless DFS (preemption / fault budgets), replay by event identity, sharded over worker processes"},
-      {"name": "seqx", "path": "harness/c17", "serves_properties": ["C07", "C08", "C09", "C11", "C17", "C20"], "kind_free_text": "explicit-state BFS over operation sequences of real objects against a reference model"},
+      {"name": "seqx", "path": "harness/c17", "serves_properties": ["C07", "C08", "C09", "C11", "C12", "C17", "C20"], "kind_free_text": "explicit-state BFS over operation sequences of real objects against a reference model"},
      ],
      "checks": [],
      "not_applicable": [],
